@@ -40,6 +40,8 @@ def check(run):
     from .copylib import copy_protocol
     for cls in classes:
         copy_protocol(run, prog, cls)               # copies / pickles of a storage hold what the storage holds
+    from .c06 import depends_on
+    depends_on(run, "C04", {"ORIG"})                # no explainer writes into the rows it reads from a storage
 
 
 def _storage(run, prog, cls, fifo):
